@@ -15,6 +15,7 @@
 -/
 import EqlModel.Eval
 import EqlModel.Mode
+import EqlModel.Gen.Tables
 
 namespace Eql
 variable {V : Type}
@@ -96,5 +97,12 @@ theorem c09_the_env_irrelevant (broken : V) (e : Env) (q : Query V) :
 example (broken : V) (n : String) (args : List V) :
     (W.atEnv sym broken ⟨none, 1⟩).fn n args = broken := by
   simp [World.atEnv]
+
+/-! ### Tie to the source (regenerated on every run, `Gen/Tables.lean`) -/
+
+/-- The transliterated entry points: `An.evaluate` advances, and `The.evaluate` computes, inside
+    `with symbolic_mode(mode=None)`, which also hides the open expression contexts. -/
+theorem c09_entry_points_tied :
+    (Gen.anAdvancesWithModeOff && Gen.theComputesWithModeOff && Gen.evaluationHidesContexts) = true := by decide
 
 end Eql
